@@ -5,8 +5,8 @@ finally has" is quantified here over the shapes that decide WHERE the operand fi
 counted from: opcode page / prefix bytes (6809 $10/$11, 68HC11 $18/$1A, 8086 segment overrides), operands in front of
 and behind the field (68HC11 BRSET/BRCLR, 65C02 BBR/BBS, 68000 BTST #n,d(PC) / MOVEM, 8086 memory operand followed by
 immediate data), 8- and 16-bit forms of one operand (6809 n,PCR; 68000 Bcc; 8086 JMP; direct/extended; abs.W/abs.L),
-lo/hi byte operands and data words - 59 shapes for the 6809, 28 for the 68HC11, 21 for the 6502/65C02, 26 for the 8086,
-33 for the 68000.  Why it was added: the item alphabet of PassLoop has ONE reference statement per kind and target
+lo/hi byte operands and data words - 53 shapes for the 6809, 27 for the 68HC11, 21 for the 6502/65C02, 24 for the 8086,
+31 for the 68000.  Why it was added: the item alphabet of PassLoop has ONE reference statement per kind and target
 (lda/bra/jmp with a one-byte opcode), and vlib/passloop.py decodes a displacement with a hard-wired "address + 2"; a
 6809 operand decoder that forgets the page prefix of LDY/CMPD/CMPU/... when it makes `label,PCR` relative (every such
 operand encodes label+1, layout converges, no diagnostic) was in no program of the check.
@@ -18,7 +18,7 @@ operand encodes label+1, layout converges, no diagnostic) was in no program of t
     generators (EProgCounter() + 2 + OpcodeLen ..., RelPos) and TLC checks that the loop converges and that the image
     satisfies the declarative Verdict, which reads it back with the PUBLISHED encodings only (Walk / Denotes: 6809,
     68HC11, 6502, 8086: offset from the address of the following instruction; 68000: from the extension word).
-    PassUses_MC_dev_page.cfg (OpcodePageCounted = FALSE) must be refuted.   quick: 4956 programs; thorough
+    PassUses_MC_dev_page.cfg (OpcodePageCounted = FALSE) must be refuted.   quick: 4882 programs; thorough
     (PassUses_MC_wide.cfg): every automatically sized shape as the second use, every distance for every shape.
 (G) the same TLC run prints every program with its source templates; each is rendered (vlib.passloop dialect tables for
     cpu / org / marker / fill) and assembled by the real asl; the data records of the code file go back to TLC
@@ -37,7 +37,7 @@ import json
 import os
 
 from vlib import aslrun, passloop, tlc
-from vlib.common import CheckError, Phase, scratch
+from vlib.common import CheckError, Phase, rng, scratch
 
 DIALECT = {"6809": "6809", "6811": "68hc11", "6502": "6502", "8086": "8086", "68000": "68000"}
 
@@ -85,6 +85,12 @@ def run(rep, bld, tier, R):
     if len(cases) != g.distinct or not cases:
         raise CheckError("PassUses_MC: %d programs printed for %d states" % (len(cases), g.distinct))
     cases.sort(key=lambda c: json.dumps([c["tg"], c["org"], c["prog"]], sort_keys=True))
+    total = len(cases)
+    if tier == "quick":         # all single-use programs, a seed-chosen share of the two-use ones (TLC checked them all)
+        pairs = [c for c in cases if sum(1 for it in c["prog"] if it["k"] == "use") > 1]
+        rng("c01/uses").shuffle(pairs)
+        drop = set(id(c) for c in pairs[600:])
+        cases = [c for c in cases if id(c) not in drop]
     # (G)
     srcs = [render(c) for c in cases]
     jobs = [{"sources": {"a.asm": s}, "opts": ["-q"], "env": {"ASL_VERIF_MAX_PASSES": "40"}, "timeout": 30} for s in srcs]
@@ -129,13 +135,16 @@ def run(rep, bld, tier, R):
     rep.cov["transitions"] += o.generated
     rep.traces(len(obs))
     bad = 0
+    confirmed = 0
     for x in obs:
         v = verdicts[x["id"]]
         c, src, res = cases[x["id"]], srcs[x["id"]], results[x["id"]]
         if not v["valid"]:
-            r2 = aslrun.assemble(bld, {"a.asm": src}, opts=["-q"], env={"ASL_VERIF_MAX_PASSES": "40"}, timeout=30)
-            if r2.p != res.p:
-                continue            # DESIGN 2.4 rule 3: not repeatable
+            if confirmed < 40:      # DESIGN 2.4 rule 3: a mismatch counts only if a fresh run repeats it
+                confirmed += 1
+                r2 = aslrun.assemble(bld, {"a.asm": src}, opts=["-q"], env={"ASL_VERIF_MAX_PASSES": "40"}, timeout=30)
+                if r2.p != res.p:
+                    continue
             bad += 1
             uses = ["%d:%s" % (j, it["asm"] % it["l"]) for j, it in enumerate(c["prog"], 1) if it["k"] == "use"]
             rep.violation("%s: emitted code does not resolve the program (uses %s): problems (item, what) = %s; a use must "
@@ -151,7 +160,7 @@ def run(rep, bld, tier, R):
     per_tg = {}
     for c in cases:
         per_tg[c["tg"]] = per_tg.get(c["tg"], 0) + 1
-    rep.part("PassUses replay", programs=len(cases), per_target=per_tg, images_judged=len(obs), unresolved=bad,
+    rep.part("PassUses replay", family=total, programs=len(cases), per_target=per_tg, images_judged=len(obs), unresolved=bad,
              obs_wall_s=o.wall, **{"drift_" + k.replace("-", "_"): n for k, n in drift.items()})
     k = len(cases) // 2
     rep.sample({"class": "uses", "target": cases[k]["tg"], "program": cases[k]["prog"], "rendered": srcs[k],
